@@ -994,7 +994,7 @@ def c17_expr(name, text, checks, what):
     # array access at statement level exhausts memory even for concrete programs (measured: > 5 GB);
     # the read path is the expression evaluator's, which is entered directly here
     for (t, w) in ((False, False), (True, True), (False, True)):
-        S("%s_t%d_w%d" % (name, int(t), int(w)), ["C17"], "quick",
+        S("%s_t%d_w%d" % (name, int(t), int(w)), ["C17"], "thorough",
           "the outcome of evaluating the expression is the same in the (tracing, warnings) configurations: %s" % what,
           "tracing=%s warnings=%s; expression on numbered line 10: %s" % (t, w, text),
           f"""
@@ -1009,7 +1009,7 @@ def c17_expr(name, text, checks, what):
 {checks}
     core::mem::forget(r);
     kani::cover!(true, "reached_end");
-""", unwind=16, timeout=600, mem=5000, cost=40)
+""", unwind=16, timeout=2400, mem=20000, cost=900)
 
 c17_expr("c17_array_read_absent", "A(1)", """
     assert!(matches!(&r, Ok(Value::Number(v)) if *v == 0.0), "c17: a cell of an absent array reads 0 whatever the flags");
@@ -1086,7 +1086,7 @@ S("c18_randomize_stores_seed", ["C18", "C01"], "quick",
     kani::cover!(seed == u64::MAX, "reached_max_seed");
 """, unwind=8, timeout=300, mem=4000, cost=30)
 
-S("c18_rnd_expression_positive", ["C18", "C01"], "quick",
+S("c18_rnd_expression_positive", ["C18", "C01"], "thorough",
   "RND(1) evaluated by the real expression evaluator advances the interpreter's own generator exactly one step and yields its value (seed u64::MAX: the case that used to overflow)",
   "randomize(u64::MAX); expression RND(1)  (concrete seed: a witness that the builtin reaches the generator the unit harnesses decide for all seeds)",
   f"""
@@ -1115,7 +1115,7 @@ S("c18_rnd_expression_zero", ["C18"], "quick",
     kani::cover!(true, "reached_end");
 """, unwind=16, timeout=900, mem=6000, cost=60)
 
-S("c18_rnd_expression_negative", ["C18", "C01"], "quick",
+S("c18_rnd_expression_negative", ["C18", "C01"], "thorough",
   "RND(-1) is reported as an error value (UNIMPLEMENTED) without advancing the generator",
   "randomize(5); expression RND(-1)",
   f"""
